@@ -180,7 +180,8 @@ PROPS["C08"] = dict(
     pkg="./props/session", level="exploration", design_ref="DESIGN.md §3 C08",
     technique="unconstrained rapid state machine over the session state machine; oracle = trace automaton over the ordered log of application callbacks, per-connection frames and channel closure",
     level_note=SESSION_NOTE,
-    stages=[dict(name="rapid", kind="rapid", run="^TestC08_Rapid$", checks=(2500, 50000), shards=(12, 16), timeout=(600, 3000))],
+    stages=[dict(name="rapid", kind="rapid", run="^TestC08_Rapid$", checks=(2500, 50000), shards=(12, 16), timeout=(600, 3000)),
+            dict(name="real-loop", kind="rapid", run="^TestC08_RealLoop$", checks=(0, 40), shards=(0, 16), timeout=(0, 900), thorough_only=True)],
     require=["history-with:logged-on", "history-with:left-schedule", "role:initiator", "role:acceptor", "history-with:application-refused-logon"],
     assumptions=["an OnLogout without a preceding OnLogon (initiator whose logon is never answered) is not forbidden by the statement and not flagged",
                  "schedule windows are placed three hours around the real clock; leaving the schedule is one CheckSessionTime call with a virtual instant twelve hours away",
